@@ -601,3 +601,30 @@ func genPromotionClause(r *hlib.Rng, cols []genCol) *cnode {
 		return &cnode{kind: "not", subs: []*cnode{{kind: "and", subs: []*cnode{leaf}}}}
 	}
 }
+
+// genEnumLikeClause: like / ilike on an enum (or string) column whose values differ only in case, with patterns
+// made from those values: exact, prefix, suffix, contains.  Several distinct enum values match one ilike pattern.
+func genEnumLikeClause(r *hlib.Rng, cols []genCol) *cnode {
+	var c *genCol
+	for i := range cols {
+		if cols[i].kind == "enum" || (c == nil && cols[i].kind == "string") {
+			c = &cols[i]
+		}
+	}
+	if c == nil {
+		return nil
+	}
+	base := caseCluster[r.Intn(len(caseCluster))]
+	pat := []string{base, base, base + "%", "%" + base, "%" + base + "%"}[r.Intn(5)]
+	op := []string{"ilike", "ilike", "like"}[r.Intn(3)]
+	leaf := &cnode{kind: "leaf", col: c.name, cmpS: op, cmpGo: op, argGo: pat, argC: "(AStr " + hlib.Str(pat) + ")", inv: r.Chance(1, 4),
+		desc: fmt.Sprintf("%s %q %s", c.name, op, pat)}
+	switch r.Intn(4) {
+	case 0:
+		return &cnode{kind: "not", subs: []*cnode{leaf}}
+	case 1:
+		return &cnode{kind: "or", subs: []*cnode{genLeaf(r, cols, false), leaf}}
+	default:
+		return leaf
+	}
+}
